@@ -75,8 +75,18 @@ def gen_C07(rng, tier):
     out = G.histories(rng, 2 * n, ['D', 'U'], kinds, **kw)
     out += [G.multi_history(rng, rng.choice(['DM', 'UM']), **kw) for _ in range(n)]
     out += [G.weighted_history(rng, rng.choice(['DW', 'UW']), **kw) for _ in range(n)]
+    # path searches and subgraph extraction with out-of-range arguments (and valid ones in between)
+    out += GP.random_cases(rng, n // 2, nmax=6, oor_p=0.6) + GP.dj_random(rng, n // 4, nmax=6, oor_p=0.6)
+    for _ in range(n // 8):
+        out += [c for c in G.sub_cases(rng, rng.choice(['D', 'U']), rng.choice(['none', 'int']), all_subsets_upto=2, oor_p=0.7)][:4]
     return out
+def route_all(case):
+    t = case.split()
+    if t[0] in ('PATH', 'DJ'): return 'paths'
+    if t[0] == 'SUB': return 'classes'
+    return route_eq(case)
 def _has_reject(c, I):
+    if c.split()[0] in ('PATH', 'DJ', 'SUB'): return any('-101' in l for l in I)
     return _steps_with_edges(c, I) and any(l.split()[1] in ('-101', '-102') or l.rstrip().endswith('-101') for l in I if l.startswith('I '))
 
 def gen_C16(rng, tier):
@@ -199,11 +209,11 @@ PROPS = {
                   'mutators; multigraph/weighted classes: forced insertions (copies of a pair carrying the same value, rarely not) then removeDuplicateEdges then ordinary use; '
                   'all observers after every call compared with the Coq model and with the multiset spec (which abstains while a multigraph/weighted pair is duplicated); '
                   'non-trivial = a forced insertion really created a duplicate entry'),
- 'C07': dict(harness=['classes', 'multi'], gen=gen_C07, coq_term=coq_term_any, histogram=G.op_histogram, coq_imports=MW_IMPORTS,
+ 'C07': dict(harness=['classes', 'multi', 'paths'], route=route_all, gen=gen_C07, shrink=None, coq_term=lambda c: coq_term_any(c) if c.split()[0] in ('D', 'U', 'DM', 'UM', 'DW', 'UW') else None, histogram=G.op_histogram, coq_imports=MW_IMPORTS,
              nontrivial=_has_reject, model_name='the six class models (Throw outcomes, checked accessors)',
              rule='seeded histories on all six graph classes interleaving valid calls with rejected ones: every mutator with an out-of-range vertex (size, size+1, UINT_MAX) in '
                   'either argument position, with and without force, resize to fewer vertices, setEdgeLabel on missing edges, and Q v = every observer taking a vertex asked about '
-                  'an out-of-range v; harness under ASan+UBSan; after every call the exception kind and ALL observers are compared with the Coq model and the spec (state unchanged); '
+                  'an out-of-range v; plus every path search (both argument positions) and both subgraph functions with out-of-range vertices; harness under ASan+UBSan; after every call the exception kind and ALL observers are compared with the Coq model and the spec (state unchanged); '
                   'non-trivial = reaches >=1 edge and contains a rejected call'),
  'C03': dict(harness='classes', gen=gen_C03, coq_term=G.coq_term_history, histogram=G.op_histogram, coq_imports='Base DirectedModel DirectedSpec UndirectedModel UndirectedSpec Instances',
              segments=[0, 4, 5], nontrivial=lambda c, I: _steps_with_edges(c, I) and any(k in c for k in (' R ', ' V ', ' SL', ' CL')), model_name='DirectedModel/UndirectedModel label store',
